@@ -726,6 +726,128 @@ def labels(model: Model, v, tuples_transparent: bool, table: dict, _d=0):
     return res
 
 
+def hops(model: Model, a, p, _memo=None):
+    """(fewest, most) rule expansions leading from abstract class a down to class p through the registered direct
+    subclasses; None when p is not below a."""
+    memo = model.__dict__.setdefault("_hops_memo", {})
+    key = (a, p)
+    if key in memo:
+        return memo[key]
+    memo[key] = None  # cycle guard
+    best = None
+    for c in model.productions(a):
+        if c is p:
+            r = (1, 1)
+        elif is_abs(c):
+            sub = hops(model, c, p)
+            r = None if sub is None else (sub[0] + 1, sub[1] + 1)
+        else:
+            r = None
+        if r is not None:
+            best = r if best is None else (min(best[0], r[0]), max(best[1], r[1]))
+    memo[key] = best
+    return best
+
+
+def _abstracts_in(t, out):
+    k = kind(t)
+    if k[0] == "ann" or k[0] == "list":
+        _abstracts_in(k[1], out)
+    elif k[0] in ("tuple", "union"):
+        for x in k[1]:
+            _abstracts_in(x, out)
+    elif k[0] == "class" and is_abs(k[1]):
+        out.append(k[1])
+    return out
+
+
+def hop_range(model: Model, t, p):
+    """Interval of the number of rule expansions between a position declared as t and the production p found there.
+    Exact (documented: 'the depth is increased each time a grammar production rule is expanded') when t is an
+    abstract class itself; positions declared through wrappers (annotation, union, list element) are not documented:
+    anything from 0 to the longest chain is accepted."""
+    k = kind(t)
+    if k[0] == "class":
+        if not is_abs(k[1]):
+            return (0, 0)
+        r = hops(model, k[1], p)
+        return r if r is not None else (0, len(model.registered))
+    his = [h[1] for h in (hops(model, a, p) for a in _abstracts_in(t, [])) if h is not None]
+    return (0, max(his) if his else 0)
+
+
+def labels_expansion(model: Model, v, table: dict, decl=None, _d=0):
+    """Expansion depthing: reference INTERVALS ((nodes, dist, weighted) lowest reading, highest reading) for v and every
+    node beneath it; table[id(node)] = (lo, hi). The lowest reading counts nothing for built-in leaves, list levels
+    and wrapped abstract positions, the highest counts one for each (and the longest chain of rules)."""
+    if _d > 4000:
+        raise RecursionError("program too deep for the reference fold")
+    if isinstance(v, list):
+        elem_t = None
+        if decl is not None:
+            k = kind(decl)
+            if k[0] == "ann":
+                k = kind(k[1])
+            if k[0] == "list":
+                elem_t = k[1]
+        lo, hi = [0, 0, 0], [0, 0, 0]
+        for x in v:
+            (a, b) = labels_expansion(model, x, table, elem_t, _d + 1)
+            if isinstance(x, list):
+                hmax = 1  # a list level inside a list: one more in the highest reading, like a list field
+            else:
+                hmax = hop_range(model, elem_t, type(x))[1] if elem_t is not None else 0
+            step = 0 if isinstance(x, list) else 1
+            lo[0] += a[0]
+            hi[0] += b[0] + hmax
+            lo[2] += a[2]
+            hi[2] += b[2]
+            lo[1] = max(lo[1], a[1] + step)
+            hi[1] = max(hi[1], b[1] + hmax + step)
+        res = (tuple(lo), tuple(hi))
+        table[id(v)] = res
+        return res
+    if type(v) is tuple:
+        hi = [0, 0, 0]
+        for x in v:
+            (_, b) = labels_expansion(model, x, table, None, _d + 1)
+            hi[0] += b[0] + len(model.registered)
+            hi[2] += b[2]
+            hi[1] = max(hi[1], b[1] + len(model.registered) + 1)
+        return ((0, 0, 0), tuple(hi))
+    c = type(v)
+    if c in BASE or v is None or c not in model.registered:
+        return ((0, 0, 0), (1, 1, 1))
+    fv = model.field_values(v, c)
+    if not fv:
+        res = ((1, 1, 1), (1, 1, 1))  # documented: the single node 0 has distance 1
+        table[id(v)] = res
+        return res
+    lo, hi = [1, 1, 0], [1, 1, 0]
+    for _, t, x in fv:
+        if x is _MISSING:
+            continue
+        (a, b) = labels_expansion(model, x, table, t, _d + 1)
+        if isinstance(x, list):
+            hl, hh, step_lo, step_hi = 0, 1, 0, 0
+        elif type(x) is tuple:
+            hl, hh, step_lo, step_hi = 0, 0, 0, 1
+        else:
+            hl, hh = hop_range(model, t, type(x))
+            step_lo = step_hi = 1
+        lo[0] += a[0] + hl
+        hi[0] += b[0] + hh
+        lo[2] += a[2]
+        hi[2] += b[2]
+        lo[1] = max(lo[1], a[1] + hl + step_lo)
+        hi[1] = max(hi[1], b[1] + hh + step_hi)
+    lo[2] += lo[1]
+    hi[2] += hi[1]
+    res = (tuple(lo), tuple(hi))
+    table[id(v)] = res
+    return res
+
+
 def _merge(a: dict, b: dict):
     for k, ids in b.items():
         a.setdefault(k, []).extend(ids)
